@@ -179,9 +179,12 @@ def rule_overrides(ctx, prop):
             continue
         fo_fields = [x["name"] for x in fo["variants"][0]["fields"]]
         c_fields = [x["name"] for x in ca["variants"][0]["fields"]]
-        nc = f.names.get("new_config", {}).get("l")
-        if not rep.anchor(nc is not None, "local new_config in load_overrides", cfg):
+        # the Config value being updated: whichever Config-typed local has its fields written (the parameter itself
+        # or a copy of it) - identified by type, not by name
+        cands = [l for l in range(1, len(f.locals)) if f.locals[l] == "stylua_lib::Config" and field_writes(f, l)]
+        if not rep.anchor(len(cands) == 1, f"the Config local updated by load_overrides ({len(cands)} candidates)", cfg):
             continue
+        nc = cands[0]
         writes = field_writes(f, nc)
         written = {}
         for bi, fld, o, s in writes:
@@ -252,7 +255,8 @@ def rule_overrides(ctx, prop):
                           f"Config.{x} can be set in stylua.toml but has no command-line override", f.loc(), cfg)
         # the function returns new_config which starts as a copy of the `config` parameter
         pr = provenance(f, 0, through=None, into_aggs=False)
-        okr = ("arg", f.names.get("config", {}).get("l")) in pr
+        cfg_args = [i for i in range(1, f.argc + 1) if f.locals[i] == "stylua_lib::Config"]
+        okr = any(("arg", i) in pr for i in cfg_args)
         rep.inst(f"{f.key} returns-updated-copy-of-config", None, cfg, ok=okr)
         if not okr:
             rep.violation(f"{f.key} does-not-start-from-config", "load_overrides does not start from its `config` "
@@ -786,12 +790,14 @@ def rule_walkup(ctx, prop):
         # find_toml_file iterates CONFIG_FILE_NAME in order and returns the first existing
         t_ = prog.fn("stylua", "config::find_toml_file")
         if rep.anchor(t_ is not None, "find_toml_file", cfg):
+            members = [t_] + [h for h in prog.fns("stylua") if h.path.startswith("config::find_toml_file::{closure")]
             uses_static = any(is_const(s["rv"]["o"]) and s["rv"]["o"].get("static") == "config::CONFIG_FILE_NAME"
-                              for b, si_, s in t_.stmts() if s["k"] == "assign" and s["rv"]["k"] == "use")
-            joins = [t for b, t in t_.calls() if callee(t).endswith("Path::join")]
-            exists = [t for b, t in t_.calls() if callee(t).endswith("Path::exists") or callee(t).endswith("Path::is_file")]
-            rev = [t for b, t in t_.calls() if re.search(r"::rev$|::rposition$|::last$", callee(t))]
-            ok = uses_static and len(joins) == 1 and len(exists) == 1 and not rev
+                              for h in members for b, si_, s in h.stmts() if s["k"] == "assign" and s["rv"]["k"] == "use")
+            allcalls = [callee(t) for h in members for b, t in h.calls()]
+            joins = [c for c in allcalls if c.endswith("Path::join")]
+            exists = [c for c in allcalls if c.endswith("Path::exists") or c.endswith("Path::is_file")]
+            rev = [c for c in allcalls if re.search(r"::rev$|::rposition$|::rfind$|::last$|::max\w*$|::min\w*$", c)]
+            ok = uses_static and len(joins) >= 1 and len(exists) >= 1 and not rev
             rep.inst("stylua::config::find_toml_file first-existing-name-in-order", None, cfg, ok=ok)
             if not ok:
                 rep.violation("stylua::config::find_toml_file shape", "find_toml_file no longer returns the first existing "
